@@ -176,6 +176,17 @@ pub fn shim_vec_iter_filter_count<T, F: FnMut(&&T) -> bool>(v: &Vec<T>, Ghost(p)
     v.iter().filter(f).count()
 }
 
+/// same, for closures whose contract only holds under a type-level hypothesis `cond`
+#[verifier::external_body]
+pub fn shim_vec_iter_filter_count_if<T, F: FnMut(&&T) -> bool>(v: &Vec<T>, Ghost(cond): Ghost<bool>, Ghost(p): Ghost<spec_fn(T) -> bool>, f: F) -> (r: usize)
+    requires
+        forall|i: int| 0 <= i < v@.len() ==> call_requires(f, (&&#[trigger] v@[i],)),
+        cond ==> forall|i: int, b: bool| 0 <= i < v@.len() && call_ensures(f, (&&#[trigger] v@[i],), b) ==> b == p(v@[i]),
+    ensures cond ==> r == v@.filter(p).len(),
+{
+    v.iter().filter(f).count()
+}
+
 /// `V.into_iter().filter(F).collect()` into a Vec
 #[verifier::external_body]
 pub fn shim_vec_into_filter_collect<T, F: FnMut(&T) -> bool>(v: Vec<T>, Ghost(p): Ghost<spec_fn(T) -> bool>, f: F) -> (r: Vec<T>)
